@@ -187,6 +187,18 @@ Definition ok_iface_extra_required_arg (doc : tsdoc) : bool :=
                         (args_of (fd_args f))
     | None => true end).
 
+(** what nitrogql enforces instead of the previous rule: an additional argument must be nullable, default or not.
+    A schema that satisfies [ok_iface_extra_required_arg] but not this is the known false alarm
+    (C05_complete_extra_default_refuted). *)
+Definition ty_nonnull (t : ty) : bool := match t with TNonNull _ => true | _ => false end.
+Definition ok_extra_args_nullable (doc : tsdoc) : bool :=
+  forall_impl_fields doc (fun fs jf =>
+    match field_named fs (iname (fd_name jf)) with
+    | Some f => forallb (fun a => match arg_named (args_of (fd_args jf)) (iname (iv_name a)) with
+                                  | Some _ => true | None => negb (ty_nonnull (iv_type a)) end)
+                        (args_of (fd_args f))
+    | None => true end).
+
 Definition ok_union_member_not_object (doc : tsdoc) : bool :=
   forallb (fun t => match t with
                     | TDUnion _ _ _ _ ms _ => forallb (fun m => match lookup_t doc (iname m) with
@@ -325,14 +337,21 @@ Definition ok_app_arg_unique (doc : tsdoc) : bool :=
 (** directives applied on the definition of a named type, anywhere inside it *)
 Definition dirs_on_type (t : typedef) : list str :=
   flat_map (fun la => map (fun a : directive => iname (dir_name a)) (snd la)) (type_apps t).
-(** input types reachable from a type name through input-object fields, bounded by fuel *)
-Fixpoint reach_types (doc : tsdoc) (fuel : nat) (n : str) : list str :=
-  match fuel with
-  | O => [n]
-  | S f => n :: match lookup_t doc n with
-                | Some (TDInput _ _ _ _ fs _) => flat_map (fun fd => reach_types doc f (base_name (iv_type fd))) fs
-                | _ => [] end
+(** input types reachable from a type name through input-object fields: iterate "add the field types of what we
+    have" [fuel] times (every iteration that is not yet stationary adds a type name of the document) *)
+Fixpoint add_new (seen l : list str) : list str :=
+  match l with [] => seen | x :: r => if existsb (str_eqb x) seen then add_new seen r else add_new (seen ++ [x]) r end.
+Definition field_type_names (doc : tsdoc) (n : str) : list str :=
+  match lookup_t doc n with
+  | Some (TDInput _ _ _ _ fs _) => map (fun fd => base_name (iv_type fd)) fs
+  | _ => []
   end.
+Fixpoint types_closure (doc : tsdoc) (fuel : nat) (seen : list str) : list str :=
+  match fuel with
+  | O => seen
+  | S f => types_closure doc f (add_new seen (flat_map (field_type_names doc) seen))
+  end.
+Definition reach_types (doc : tsdoc) (fuel : nat) (n : str) : list str := types_closure doc fuel [n].
 (** [nested] = follow input-object field types transitively (the specification's reading);
     otherwise only the argument's own named type (the scope of nitrogql's rule) *)
 Definition dir_succ (nested : bool) (doc : tsdoc) (d : directivedef) : list str :=
@@ -343,8 +362,6 @@ Definition dir_succ (nested : bool) (doc : tsdoc) (d : directivedef) : list str 
     (args_of (dd_args d)).
 Definition succ_names (nested : bool) (doc : tsdoc) (ns : list str) : list str :=
   flat_map (fun n => match lookup_d doc n with Some d => dir_succ nested doc d | None => [] end) ns.
-Fixpoint add_new (seen l : list str) : list str :=
-  match l with [] => seen | x :: r => if existsb (str_eqb x) seen then add_new seen r else add_new (seen ++ [x]) r end.
 Fixpoint closure (nested : bool) (doc : tsdoc) (fuel : nat) (seen : list str) : list str :=
   match fuel with O => seen | S f => closure nested doc f (add_new seen (succ_names nested doc seen)) end.
 Definition reaches_self (nested : bool) (doc : tsdoc) (d : directivedef) : bool :=
@@ -383,6 +400,15 @@ Definition all_rules : list rule :=
    ROutputInInput; RNotInterface; RImplementsSelf; RMissingTransitive; RIfaceFieldMissing; RIfaceFieldType;
    RIfaceArgMissing; RIfaceArgType; RIfaceExtraRequiredArg; RUnionMemberNotObject; RDirectiveUnknown;
    RDirectiveMisplaced; RDirectiveRepeated; RDirectiveArgs; RDirectiveRecursive].
+(** the rules as the current implementation enforces them: two of them only in part
+    (see C05_sound_directive_args_int_range_refuted, C05_sound_directive_recursive_nested_refuted) *)
+Definition rule_ok_impl (r : rule) (doc : tsdoc) : bool :=
+  match r with
+  | RDirectiveArgs => ok_directive_args_lenient doc
+  | RDirectiveRecursive => ok_directive_recursive_shallow doc
+  | _ => rule_ok r doc
+  end.
+
 Definition violated (doc : tsdoc) : list rule := filter (fun r => negb (rule_ok r doc)) all_rules.
 
 (** * Further validity conditions of the specification that nitrogql does not implement *)
@@ -411,6 +437,29 @@ Definition nonempty_ok (doc : tsdoc) : bool :=
 Definition implements_unique_ok (doc : tsdoc) : bool :=
   forallb (fun c => nodup_str (map iname (snd (fst c)))) (comps doc).
 
+(** the grammar's `Arguments : ( Argument+ )`: an application written with parentheses has at least one argument *)
+Definition ok_app_args_nonempty (doc : tsdoc) : bool :=
+  forallb (fun la => forallb (fun a : directive =>
+             match dir_args a with Some x => negb (match args_list x with [] => true | _ => false end) | None => true end)
+             (snd la)) (all_apps doc).
+
 Definition spec_valid (doc : tsdoc) : bool :=
   unique_names doc && forallb (fun r => rule_ok r doc) all_rules &&
-  ok_app_arg_unique doc && root_ok doc && nonempty_ok doc && implements_unique_ok doc.
+  ok_app_arg_unique doc && ok_app_args_nonempty doc && root_ok doc && nonempty_ok doc && implements_unique_ok doc.
+
+(** * before extensions are resolved: two definitions of the same kind with one name (spec: type names are unique) *)
+Definition same_kind (a b : typedef) : bool :=
+  match a, b with
+  | TDScalar _ _ _ _ _, TDScalar _ _ _ _ _ | TDObject _ _ _ _ _ _ _, TDObject _ _ _ _ _ _ _
+  | TDInterface _ _ _ _ _ _ _, TDInterface _ _ _ _ _ _ _ | TDUnion _ _ _ _ _ _, TDUnion _ _ _ _ _ _
+  | TDEnum _ _ _ _ _ _, TDEnum _ _ _ _ _ _ | TDInput _ _ _ _ _ _, TDInput _ _ _ _ _ _ => true
+  | _, _ => false
+  end.
+Fixpoint same_kind_dup (doc : tsdoc) : bool :=
+  match doc with
+  | [] => false
+  | TSType t :: r =>
+      existsb (fun d => match d with TSType t' => same_kind t t' && str_eqb (tn t) (tn t') | _ => false end) r
+      || same_kind_dup r
+  | _ :: r => same_kind_dup r
+  end.
